@@ -2,6 +2,8 @@ import Driver.Util
 import Crusta.Spec.Oracle
 import Driver.Enc
 import Driver.Trace
+import Driver.IO
+import Driver.Equiv
 import Crusta.Model.Graph
 
 open Crusta Driver
@@ -161,6 +163,45 @@ def runSolve (c : Case) : List String := Id.run do
     | _ => pure ()
   return out.reverse
 
+/-! ### multi family: statuses of several solvers on one framework, judged when small -/
+
+def runMulti (c : Case) : List String := Id.run do
+  let mut af : Option AF := none
+  let mut labels : List Nat := []
+  let mut out : List String := []
+  for l in c.lines do
+    let ts := toks l
+    match ts with
+    | "fw" :: rest =>
+      let a : AF := ⟨natOf (kvGetD rest "n" "0"), attList (kvGetD rest "atts" "")⟩
+      labels := natList (kvGetD rest "labels" "-")
+      if a.wfB && a.n ≤ 9 then af := some a
+    | ["r", i, sem, task, arg, res, _] | ["r", i, sem, task, arg, res] =>
+      match af, Sem.ofString? sem, Task.ofString? task with
+      | some a, some σ, some t =>
+        let dense (lab : Nat) : Nat := (posOf labels lab).getD 9999
+        let args := (natList arg).map dense
+        let ans : Option Answer :=
+          if res == "YES" then some (.acc true none) else if res == "NO" then some (.acc false none)
+          else if res == "NOEXT" then some (.se none) else none
+        match ans with
+        | some an =>
+          match checkAnswer a ⟨σ, t, false, args⟩ an with
+          | .ok _ => out := s!"verdict ok {i}" :: out
+          | .error e => out := s!"verdict BAD {i} {sem}/{task}: {e}" :: out
+        | none => pure ()
+      | _, _, _ => pure ()
+    | ["r", i, sem, _task, _arg, "EXT", ext, _] =>
+      match af, Sem.ofString? sem with
+      | some a, some σ =>
+        let dense (lab : Nat) : Nat := (posOf labels lab).getD 9999
+        match checkAnswer a ⟨σ, .SE, false, []⟩ (.se (some ((natList ext).map dense))) with
+        | .ok _ => out := s!"verdict ok {i}" :: out
+        | .error e => out := s!"verdict BAD {i} {sem}/SE: {e}" :: out
+      | _, _ => pure ()
+    | _ => pure ()
+  return out.reverse
+
 def main : IO Unit := do
   let stdin ← IO.getStdin
   let mut lines : Array String := #[]
@@ -176,6 +217,10 @@ def main : IO Unit := do
       | "store" => runStore c
       | "solve" => runSolve c ++ ["trace"] ++ runTrace c.lines
       | "enc" => runEnc c.lines
+      | "multi" => runMulti c
+      | "equiv" => runEquiv c.lines
+      | "read" => runRead c.lines
+      | "write" => runWrite c.lines
       | f => [s!"verdict BAD unknown family {f}"]
     for l in out do stdout.putStrLn l
     stdout.putStrLn "end"
